@@ -59,6 +59,48 @@ pub fn mutant_universe(mut u: Universe, seed: u64) -> Universe {
         u.subjects.push(b);
         u.pairs.push((u.subjects.len() - 2, u.subjects.len() - 1));
     }
+    // a definition whose type-hash input runs to several kilobytes, and copies that differ from it only in the very
+    // last field (a hash that stops looking after some kilobytes cannot tell them apart)
+    {
+        use vmodel::ty::{AdtDef, Body, CopyKind, Fields, Prim, Ty};
+        let fields: Vec<(String, Ty)> = (0..400)
+            .map(|i| {
+                (format!("field_number_{}", i), match i % 5 {
+                    0 => Ty::Prim(Prim::U8),
+                    1 => Ty::Prim(Prim::U64),
+                    2 => Ty::String,
+                    3 => Ty::vec(Ty::Prim(Prim::U16)),
+                    _ => Ty::Prim(Prim::U32),
+                })
+            })
+            .collect();
+        let mk = |module: &str, fields: Vec<(String, Ty)>, of: Option<usize>, what: Option<&str>| AdtDef {
+            name: "Many400".into(),
+            module: module.into(),
+            copy: CopyKind::DeepPlain,
+            reprs: vec![],
+            params: vec![],
+            where_preds: vec![],
+            body: Body::Struct(Fields::Named(fields)),
+            mutant_of: of,
+            mutation: what.map(|w| w.to_string()),
+        };
+        u.adts.push(mk("", fields.clone(), None, None));
+        let base = u.adts.len() - 1;
+        let mut f1 = fields.clone();
+        f1[399].1 = Ty::Prim(Prim::I32);
+        let mut f2 = fields.clone();
+        f2[399].0 = "field_number_399x".into();
+        let mut f3 = fields.clone();
+        f3.swap(397, 399);
+        u.subjects.push(Ty::adt(base, vec![]));
+        let sb = u.subjects.len() - 1;
+        for (k, (f, what)) in [(f1, "last of 400 fields: u32 replaced by same-size i32"), (f2, "last of 400 fields renamed"), (f3, "fields 397 and 399 of 400 swapped")].into_iter().enumerate() {
+            u.adts.push(mk(&format!("mm{}", k), f, Some(base), Some(what)));
+            u.subjects.push(Ty::adt(u.adts.len() - 1, vec![]));
+            u.pairs.push((sb, u.subjects.len() - 1));
+        }
+    }
     // the same definition with a different value of one const generic argument
     for si in 0..n_subjects {
         let t = u.subjects[si].clone();
